@@ -45,6 +45,9 @@ CHECKS = {
  "C08": ("exploration", "schema-walk mutation monitor on node-formatted blocks (1..17 transactions, with / without certificate, failed-tx map, target bits): every single-field mutant as is and with the id recomputed, body edits (insert fresh / duplicate at every position, drop, swap, replace; merkle field recomputed or not), re-signing with another key",
          "Runtime oracle over ~18k verifications per quick run; complete for single edits of the generated blocks.",
          "Trusted: SHA-256 / ECDSA; explicit set of fields outside the three bindings (height, in_trunk, next_hash, merkle_tree list, failed-tx keys, transaction content other than its id).", "DESIGN.md §3 C08"),
+ "C15": ("exploration", "structural-invariant monitor on the real Smr / QCPendingTree (real InitQCTree over a stub ledger, real signed proposal / vote messages through the synchronous handler shims): audit after every call of every history - every labelled rooted tree on n <= 6 proposals x every arrival order as confirmed blocks, n <= 5 through the proposal handler in three interleavings, every single duplicate, every single rollback position, vote patterns at every gap; random histories of 3-12 proposals (shape styles, disorder levels, gapped views, weak justifies, member / own votes, enforce, undelivered parents, restart forms); oracle: accepted proposals stored exactly once and in the right place, HighQC view monotone except by rollback and only to certified stored proposals, markers = ancestors 1/2/3 when set, root moves only to a descendant; thorough adds free-running concurrent handlers (real Start loop + ledger goroutine) audited at quiescence and a -race child",
+         "Exhaustive over the small-n boxes (75k histories, 1.0M audited calls per quick run; n <= 7 / 1.1M histories thorough), sampled beyond; concurrent interleavings are those the scheduler produced.",
+         "Trusted: the tree model and auditor in cmd/c15/model.go; stub ledger; allowed: lazy eviction of proposals that can no longer descend from the root, commit with too few ancestors is a no-op, CommitQC == Root initially. Two open findings (stale markers; unsynchronised tree under concurrent handlers).", "DESIGN.md §3 C15"),
  "C16": ("exploration", "per-millisecond tiling audit of the tdpos / xpoa slot schedules over a parameter box + random configurations, acceptance matrix through the public CheckMinerMatch of real tdpos / xpoa / single / pow instances over stub ledgers (every validator, outsider, empty proposer, slot edges), PoW IsProofed / retarget against an independent Bitcoin-style model, compact encoding against an independent codec",
          "Exhaustive over the small configuration box (every ms of 3 terms), sampled beyond; ~13M evaluations per quick run.",
          "Trusted: the relational tiling auditor and the independent retarget / compact implementations in cmd/c16; stub ledger / contract objects.", "DESIGN.md §3 C16"),
